@@ -8,6 +8,7 @@ import (
 	"path/filepath"
 	"runtime"
 	"sort"
+	"strconv"
 	"strings"
 	"syscall"
 	"time"
@@ -720,6 +721,12 @@ func genC19Case(t *sim.T, tier string) *c19Case {
 			t.Probe("large-good-file")
 		}
 	}
+	// thorough tier, rarely: one good file beyond 16, 64 or 128 MiB (read limits, 32-bit sizes of buffers)
+	if tier == "thorough" && len(c.good) > 0 && len(c.good) <= 40 && t.Chance(1, c19GiantOdds) {
+		i := t.Choose(len(c.good))
+		c.good[i] = bloatFeed(c.good[i], []int{16 << 20, 64 << 20, 128 << 20}[t.Choose(3)]+t.Choose(4096))
+		t.Probe("giant-good-file")
+	}
 	nBad := t.Choose(7)
 	if !large && nGood+nBad > 14 {
 		nBad = 14 - nGood
@@ -1169,6 +1176,15 @@ func runC19CLI(t *sim.T, c *c19Case) *sim.Violation {
 	}
 	return nil
 }
+
+// c19GiantOdds: one thorough run in this many has a giant good file (VERIF_C19_GIANT_ODDS overrides it for
+// sensitivity experiments; part of the batch configuration like the seed).
+var c19GiantOdds = func() int {
+	if n, err := strconv.Atoi(os.Getenv("VERIF_C19_GIANT_ODDS")); err == nil && n > 0 {
+		return n
+	}
+	return 1500
+}()
 
 var cliUnprivState int // 0 unknown, 1 available, 2 not available
 
